@@ -17,9 +17,9 @@ Definition bind {A B} (r : res A) (f : A -> res B) : res B :=
   match r with Ok a => f a | Rejected e => Rejected e | Crash e => Crash e | OutOfFuel => OutOfFuel end.
 
 (* for other_namespace, prefix in self._prefixes.items(): if prefix == "": new declaration; break *)
-Definition redeclare_empty_prefix (pm : pmap) : res pmap :=
+Definition redeclare_empty_prefix (data : dict str) (pm : pmap) : res pmap :=
   match find (fun kv => null (snd kv)) pm with
-  | Some (other, _) => new_namespace_declaration pm other
+  | Some (other, _) => new_namespace_declaration (dict_keys data) pm other
   | None => Ok pm
   end.
 
@@ -27,12 +27,12 @@ Definition redeclare_empty_prefix (pm : pmap) : res pmap :=
 Definition collect_step (data : dict str) (pm : pmap) (namespace : str) : res pmap :=
   if dict_has namespace pm then Ok pm else
   if null namespace then
-    bind (redeclare_empty_prefix pm) (fun pm' => Ok (dict_set [] [] pm'))
+    bind (redeclare_empty_prefix data pm) (fun pm' => Ok (dict_set [] [] pm'))
   else
     match lookup_prefix data namespace with
-    | None => new_namespace_declaration pm namespace
+    | None => new_namespace_declaration (dict_keys data) pm namespace
     | Some prefix =>
-        if (null prefix && py_in_str [] (dict_values pm))%bool then new_namespace_declaration pm namespace
+        if (null prefix && py_in_str [] (dict_values pm))%bool then new_namespace_declaration (dict_keys data) pm namespace
         else if negb (null prefix) then
           if py_in_str (prefix ++ [COLON]) (dict_values pm) then Crash AssertionError
           else Ok (dict_set namespace (prefix ++ [COLON]) pm)
@@ -102,7 +102,8 @@ Definition declared_attributes (pm : pmap) : list (str * str) :=
 Definition prefix_of (pm : pmap) (ns : str) : str := match dict_get ns pm with Some p => p | None => [] end.
 Definition qname (pm : pmap) (ns local : str) : str := prefix_of pm ns ++ local.
 
-(* ---- the guard of the known finding (caller prefixes that look like generated ones) ------------- *)
+(* ---- caller prefixes that look like generated ones (the class of the repaired finding
+   C13-caller-prefix-looks-generated; no longer a guard of any theorem) -------------------------------- *)
 Definition NS_ : str := [110; 115]%N.
 Definition gen_like (p : str) : bool :=
   match p with
